@@ -248,6 +248,39 @@ pub fn c12(ctx: &mut Ctx) {
                 judge_text(ctx, "foreign-character", &format!("enr:{s}"), false);
             }
         }
+        // multi-byte characters replacing / inserted at each of the first 8 character offsets (the prefix included)
+        for ch in ['é', '€', '😀'] {
+            for at in 0..8usize {
+                let tc: Vec<char> = text.chars().collect();
+                let mut rep = tc.clone();
+                rep[at] = ch;
+                judge_text(ctx, "foreign-character", &rep.iter().collect::<String>(), false);
+                let mut ins = tc.clone();
+                ins.insert(at, ch);
+                judge_text(ctx, "foreign-character", &ins.iter().collect::<String>(), false);
+                if at < 4 {
+                    let bc: Vec<char> = body.chars().collect();
+                    let mut rb = bc.clone();
+                    rb[at] = ch;
+                    judge_text(ctx, "foreign-character", &rb.iter().collect::<String>(), false);
+                }
+            }
+        }
+        if b < 24 {
+            // every code point U+0000..U+00FF at the first, a middle and the last body position
+            for cp in 0u32..0x100 {
+                let ch = char::from_u32(cp).unwrap();
+                for pos in [0usize, chars.len() / 2, chars.len() - 1] {
+                    let mut c2 = chars.clone();
+                    if c2[pos] == ch {
+                        continue;
+                    }
+                    c2[pos] = ch;
+                    let sv: String = c2.into_iter().collect();
+                    judge_text(ctx, "codepoint-sweep", &format!("enr:{sv}"), false);
+                }
+            }
+        }
         // non-zero trailing bits: all values
         let last = *chars.last().unwrap();
         const ALPHA: &[u8; 64] = b"ABCDEFGHIJKLMNOPQRSTUVWXYZabcdefghijklmnopqrstuvwxyz0123456789-_";
@@ -281,6 +314,26 @@ pub fn c12(ctx: &mut Ctx) {
             let mut v = bytes.clone();
             v.push(0xc0);
             judge_text(ctx, "bytes-after-record", &b64::encode(&v), true);
+        }
+        // bytes BEFORE the record, non-string JSON documents, confusable prefixes, a very long text
+        for fill in [0x00u8, 0x80, 0xc0] {
+            let mut v = vec![fill];
+            v.extend_from_slice(&bytes);
+            judge_text(ctx, "bytes-before-record", &format!("enr:{}", b64::encode(&v)), false);
+        }
+        for p in ["\u{ff45}nr:", "enr\u{ff1a}", "\u{435}nr:", "enr:\u{200b}", "\u{feff}enr:"] {
+            judge_text(ctx, "other-prefix", &format!("{p}{body}"), false);
+        }
+        judge_text(ctx, "bytes-after-record", &format!("enr:{}", b64::encode(&[bytes.clone(), vec![0x41; 1800]].concat())), false);
+        for kt in dec::kts() {
+            for doc in [format!("[\"{text}\"]"), format!("{{\"enr\":\"{text}\"}}"), "12".to_string(), "null".to_string(), "true".to_string(), format!("\"{text}\" \"x\"")] {
+                let o = dec::json_kt(kt, &doc);
+                ctx.count("evaluations");
+                ctx.count(&format!("text.non-string-json.{}", if o.res.is_ok() { "accept" } else { "reject" }));
+                if o.res.is_ok() {
+                    ctx.violate("C12", "non-canonical-text-accepted", &format!("non-string-json/{}", kt.name()), || doc.clone(), || json!({"kind": "json", "what": "Enr-json", "doc": doc}));
+                }
+            }
         }
         // standard-alphabet rendering of the same bytes (differs when '-' or '_' occur)
         let std_alpha: String = body.chars().map(|c| match c { '-' => '+', '_' => '/', c => c }).collect();
@@ -859,10 +912,10 @@ pub fn c14(ctx: &mut Ctx) {
 // =============================================================================================
 // C15 — equality, hashing, content comparison
 // =============================================================================================
-fn pool_check<KK: KeyKind>(ctx: &mut Ctx, states: &[Obs], scheme: Scheme, replay: &dyn Fn() -> serde_json::Value) {
+fn pool_check<KK: KeyKind>(ctx: &mut Ctx, states: &[Obs], scheme: Scheme, other_label: u64, replay: &dyn Fn() -> serde_json::Value) {
     // rebuild objects from their encodings (decode image), plus clones, re-signings and re-keyings
     let own = KK::make(scheme, &secret_from(scheme, OWN));
-    let other = KK::make(scheme, &secret_from(scheme, OTHER));
+    let other = KK::make(scheme, &secret_from(scheme, other_label));
     struct Member<K: EnrKey> {
         e: Enr<K>,
         seq: u64,
@@ -1003,21 +1056,30 @@ pub fn c15(ctx: &mut Ctx) {
         let (kt, scheme) = ks[(i / ctx.nshards) as usize % ks.len()];
         let mut h = { let len = 12 + below(&mut r, 30) as usize; random_history(&mut r, scheme, len) };
         h.own = OWN;
-        h.other = OTHER;
+        h.other = if h.other >> 63 == 1 { OWN | (1u64 << 63) } else { OTHER };
         if let crate::hist::Init::Decode(_) = h.init {
             h.init = crate::hist::Init::Build(vec![BEntry::Udp4(1), BEntry::Add(b"x".to_vec(), Val::U8(3))]);
+        }
+        if i % 3 == 2 {
+            // start near the size limit, so that failing updates (incl. re-keying ones) occur
+            let key = own_ref(scheme, OWN);
+            let mut rec = Rec::minimal(key, 300 + i);
+            rec.map.insert(b"x".to_vec(), Item::S(vec![5]));
+            if let Some(r2) = gen::pad_to(&rec, b"pad", 296 + (i % 5) as usize) {
+                h.init = crate::hist::Init::Decode(r2.bytes());
+            }
         }
         let st = run_hist_kt(ctx, kt, false, &h, &opts);
         let replay = || json!({"kind": "history", "kt": kt.name(), "faulty": false, "pool": true, "history": serde_json::to_value(&h).unwrap()});
         match kt {
-            KT::K256 => pool_check::<K256K>(ctx, &st.states, scheme, &replay),
+            KT::K256 => pool_check::<K256K>(ctx, &st.states, scheme, h.other, &replay),
             #[cfg(feature = "libsecp")]
-            KT::Libsecp => pool_check::<LibsecpK>(ctx, &st.states, scheme, &replay),
+            KT::Libsecp => pool_check::<LibsecpK>(ctx, &st.states, scheme, h.other, &replay),
             #[cfg(not(feature = "libsecp"))]
             KT::Libsecp => {}
-            KT::Ed => pool_check::<EdK>(ctx, &st.states, scheme, &replay),
-            KT::Comb => pool_check::<CombK>(ctx, &st.states, scheme, &replay),
-            KT::Toy => pool_check::<ToyK>(ctx, &st.states, scheme, &replay),
+            KT::Ed => pool_check::<EdK>(ctx, &st.states, scheme, h.other, &replay),
+            KT::Comb => pool_check::<CombK>(ctx, &st.states, scheme, h.other, &replay),
+            KT::Toy => pool_check::<ToyK>(ctx, &st.states, scheme, h.other, &replay),
         }
         ctx.count("pools");
     }
@@ -1028,10 +1090,75 @@ pub fn c15(ctx: &mut Ctx) {
 // =============================================================================================
 pub fn c16(ctx: &mut Ctx) {
     let q = ctx.quick();
+    ctx.phase(0.4);
     let n = ctx.vol(if q { 20_000 } else { 2_000_000 });
     let viol = |ctx: &mut Ctx, rule: &str, class: &str, detail: String, input: serde_json::Value| {
         ctx.violate("C16", rule, class, || detail.clone(), || json!({"kind": "nodeid", "input": input}));
     };
+    // every code point U+0000..U+017F at a digit position (first, middle, last), with and without prefix: only the
+    // 22 hex digits may be accepted
+    {
+        let base = "00112233445566778899aabbccddeeff00112233445566778899aabbccddeeff";
+        for cp in 0u32..0x180 {
+            if !ctx.mine(cp as u64) || (cfg!(miri) && ctx.expired()) {
+                continue;
+            }
+            let ch = char::from_u32(cp).unwrap();
+            for pos in [0usize, 31, 63] {
+                for pfx in ["", "0x"] {
+                    let mut cs: Vec<char> = base.chars().collect();
+                    cs[pos] = ch;
+                    let sv = format!("{pfx}{}", cs.iter().collect::<String>());
+                    let want = ch.is_ascii_hexdigit();
+                    // through text (escaped by serde_json) and through an owned Value
+                    let doc = serde_json::to_string(&sv).unwrap();
+                    let r1 = guard(|| serde_json::from_str::<NodeId>(&doc).is_ok());
+                    let r2 = guard(|| serde_json::from_value::<NodeId>(serde_json::Value::String(sv.clone())).is_ok());
+                    ctx.add("evaluations", 2);
+                    ctx.count("nodeid.codepoint-sweep");
+                    for (path, r) in [("from_str", r1), ("from_value", r2)] {
+                        match r {
+                            Err(p) => ctx.violate("C03", "panic", &format!("NodeId-json/{}", panic_sig(&p)), || format!("{sv:?}: {p}"), || json!({"kind": "nodeid", "input": sv})),
+                            Ok(ok) if ok != want => ctx.violate("C16", if want { "valid-hex-rejected" } else { "malformed-hex-accepted" }, &format!("codepoint/{path}"), || format!("U+{cp:04X} at {pos}: {sv:?} accepted={ok}"), || json!({"kind": "nodeid", "input": sv})),
+                            _ => {}
+                        }
+                    }
+                }
+            }
+        }
+        // multi-byte characters at every early byte offset, for every total byte length 58..=72
+        for total in 58..=72usize {
+            if !ctx.mine(total as u64) || (cfg!(miri) && ctx.expired()) {
+                continue;
+            }
+            for ch in ['é', '€', '😀'] {
+                for at in 0..6usize {
+                    let clen = ch.len_utf8();
+                    if at + clen > total {
+                        continue;
+                    }
+                    let mut sv = String::new();
+                    sv.push_str(&"0x0a1b2c"[..at.min(8)]);
+                    while sv.len() < at {
+                        sv.push('a');
+                    }
+                    sv.push(ch);
+                    while sv.len() < total {
+                        sv.push('b');
+                    }
+                    let doc = serde_json::to_string(&sv).unwrap();
+                    ctx.count("evaluations");
+                    ctx.count("nodeid.multibyte-offsets");
+                    match guard(|| serde_json::from_str::<NodeId>(&doc).is_ok()) {
+                        Err(p) => ctx.violate("C03", "panic", &format!("NodeId-json/{}", panic_sig(&p)), || format!("{sv:?}: {p}"), || json!({"kind": "nodeid", "input": sv})),
+                        Ok(true) => ctx.violate("C16", "malformed-hex-accepted", "multibyte", || format!("{sv:?}"), || json!({"kind": "nodeid", "input": sv})),
+                        Ok(false) => {}
+                    }
+                }
+            }
+        }
+    }
+    ctx.phase(0.7);
     // parse: all slice lengths 0..=64 (complete), several fills
     for len in 0..=64usize {
         if !ctx.mine(len as u64) {
@@ -1083,6 +1210,11 @@ pub fn c16(ctx: &mut Ctx) {
         if i % 8 < 5 && i >= 8 {
             raw[(i % 32) as usize] ^= (i >> 3) as u8;
         }
+        if i % 8 == 5 {
+            // special byte values at the positions the short form prints and at their neighbours
+            let pos = [0usize, 1, 2, 15, 16, 29, 30, 31][((i >> 3) % 8) as usize];
+            raw[pos] = [0x00u8, 0x01, 0x0f, 0x10, 0x7f, 0x80, 0xa0, 0xff][((i >> 6) % 8) as usize];
+        }
         ctx.count("evaluations");
         ctx.distinct(h64(&[&raw]));
         let hexs = hex(&raw);
@@ -1108,6 +1240,35 @@ pub fn c16(ctx: &mut Ctx) {
         let js = serde_json::to_string(&a).unwrap_or_default();
         if js != format!("\"0x{hexs}\"") {
             viol(ctx, "json-form", "serialize", js.clone(), inp.clone());
+        }
+        if serde_json::to_value(a).ok() != Some(serde_json::Value::String(format!("0x{hexs}"))) {
+            viol(ctx, "json-form", "to_value", "".into(), inp.clone());
+        }
+        // the other ways a document reaches Deserialize: an owned Value, a reader, an escaped string
+        let doc = format!("\"0x{hexs}\"");
+        let esc = format!("\"\\u0030x{hexs}\"");
+        let variants: [(&str, Result<NodeId, String>); 4] = [
+            ("from_value", serde_json::from_value::<NodeId>(serde_json::Value::String(format!("0x{hexs}"))).map_err(|e| e.to_string())),
+            ("from_reader", serde_json::from_reader::<_, NodeId>(doc.as_bytes()).map_err(|e| e.to_string())),
+            ("escaped", serde_json::from_str::<NodeId>(&esc).map_err(|e| e.to_string())),
+            ("from_slice", serde_json::from_slice::<NodeId>(doc.as_bytes()).map_err(|e| e.to_string())),
+        ];
+        for (cls, r) in variants {
+            ctx.count("evaluations");
+            match r {
+                Ok(d) if d.raw() == raw => {}
+                Ok(_) => viol(ctx, "deserialised-id-differs", cls, doc.clone(), inp.clone()),
+                Err(e) => viol(ctx, "valid-hex-rejected", cls, format!("{doc}: {e}"), inp.clone()),
+            }
+        }
+        // a map key and a struct field (serde_json turns map keys into strings)
+        if i % 16 == 0 {
+            let mut m = std::collections::HashMap::new();
+            m.insert(a, 1u8);
+            let back: Result<std::collections::HashMap<NodeId, u8>, _> = serde_json::to_string(&m).map_err(|e| e.to_string()).and_then(|t| serde_json::from_str(&t).map_err(|e| e.to_string()));
+            if back.as_ref().ok() != Some(&m) {
+                viol(ctx, "deserialised-id-differs", "map-key", format!("{back:?}"), inp.clone());
+            }
         }
         if format!("{a:?}") != format!("0x{hexs}") {
             viol(ctx, "debug-form", "", format!("{a:?}"), inp.clone());
@@ -1219,8 +1380,86 @@ pub fn c17(ctx: &mut Ctx) {
             }
             s
         };
+        let secret: [u8; 32] = if i % 13 == 5 {
+            // secrets that look like text: "0x…", hex digits, "enr:", PEM dashes
+            let pats: [&[u8]; 6] = [b"0x", b"0X", b"enr:", b"----", b"0123456789abcdef0123456789abcdef", b"{\"k\":"];
+            let pat = pats[(i / 13 % 6) as usize];
+            let mut s2 = secret;
+            s2[..pat.len().min(32)].copy_from_slice(&pat[..pat.len().min(32)]);
+            s2
+        } else {
+            secret
+        };
+        let secret: [u8; 32] = if i % 11 == 3 {
+            // leading / trailing zero bytes
+            let mut s2 = secret;
+            let nz = 1 + (i / 11 % 12) as usize;
+            if i % 2 == 0 {
+                s2[..nz].iter_mut().for_each(|b| *b = 0);
+            } else {
+                s2[32 - nz..].iter_mut().for_each(|b| *b = 0);
+            }
+            s2
+        } else {
+            secret
+        };
         ctx.distinct(h64(&[&secret]));
         let sh = hex(&secret);
+        // the 32 bytes handed over are the middle of a larger buffer: only they may change
+        for which in ["secp", "ed"] {
+            let mut big = [0xa5u8; 48];
+            big[8..40].copy_from_slice(&secret);
+            let ok = guard(|| {
+                if which == "secp" {
+                    enr::CombinedKey::secp256k1_from_bytes(&mut big[8..40]).is_ok()
+                } else {
+                    enr::CombinedKey::ed25519_from_bytes(&mut big[8..40]).is_ok()
+                }
+            });
+            ctx.count("evaluations");
+            ctx.count("c17.guarded-buffers");
+            if let Ok(ok) = ok {
+                if big[..8] != [0xa5; 8] || big[40..] != [0xa5; 8] {
+                    ctx.violate("C17", "bytes-outside-the-callers-slice-changed", which, || hex(&big), || json!({"kind": "key-import", "which": which, "hex": sh}));
+                }
+                if ok && big[8..40] != [0u8; 32] {
+                    ctx.violate("C17", "caller-buffer-not-wiped", which, || hex(&big[8..40]), || json!({"kind": "key-import", "which": which, "hex": sh}));
+                }
+            }
+        }
+        // two different secrets made of the same 8-byte words, imported back to back: each gets ITS key
+        if i % 5 == 1 {
+            let mut rot = [0u8; 32];
+            rot[..24].copy_from_slice(&secret[8..]);
+            rot[24..].copy_from_slice(&secret[..8]);
+            let mut sw = secret;
+            sw.swap(0, 8);
+            for second in [rot, sw] {
+                if second == secret {
+                    continue;
+                }
+                for which in ["ed", "secp"] {
+                    let r = guard(|| {
+                        let (mut a, mut b2) = (secret, second);
+                        if which == "ed" {
+                            let _ = enr::CombinedKey::ed25519_from_bytes(&mut a);
+                            enr::CombinedKey::ed25519_from_bytes(&mut b2).ok().map(|k| (k.public().encode(), k.encode()))
+                        } else {
+                            let _ = enr::CombinedKey::secp256k1_from_bytes(&mut a);
+                            enr::CombinedKey::secp256k1_from_bytes(&mut b2).ok().map(|k| (k.public().encode(), k.encode()))
+                        }
+                    });
+                    ctx.count("evaluations");
+                    ctx.count("c17.back-to-back-imports");
+                    if let Ok(Some((pk, exp))) = r {
+                        let want = if which == "ed" { Some(sig::ed_pub(&second).to_vec()) } else { sig::secp_pub(&second).map(|p| p.to_vec()) };
+                        if Some(pk) != want || exp != second {
+                            ctx.violate("C17", "public-key-differs-from-independent-derivation", &format!("{which}/back-to-back"), || format!("import of {} right after {}", hex(&second), sh), || json!({"kind": "key-import", "which": which, "hex": hex(&second), "after": sh}));
+                        }
+                    }
+                }
+            }
+        }
         // ---- secp256k1
         {
             let mut buf = secret;
